@@ -44,7 +44,7 @@ if ! go build $MODFILE $RACE -tags verif -o "$BIN" ./cmd/vcheck 2>.scratch/build
 fi
 rm -f .scratch/build.$$.log
 case "$PROP" in
-  C10|C11|C14|C15|C16|C17|C18|C19|C20)
+  C03|C10|C11|C14|C15|C16|C17|C18|C19|C20)
     if ! (cd "$REPO" && go build $RACE -tags verif -o "$VERIF_ROOT/bin/gedcom$RACE$SUF" ./cmd/gedcom) 2>.scratch/buildcli.$$.log; then
       cat .scratch/buildcli.$$.log >&2; rm -f .scratch/buildcli.$$.log
       echo "BUILD FAILED (gedcom CLI)" >&2
